@@ -264,10 +264,271 @@ theorem typed_varint_value (id v : Nat) (raw : RawTP) (h : (TP.varint id v).raw 
     simp [ha] at h; subst h
     exact ⟨rfl, by simpa using varint_roundtrip v [] bs ha⟩
 
+/-! ## Destination slices and sequences of calls
+
+The statements above are about the bytes an encoder produces. The two blocks below say that these
+bytes are all there is to it: they do not depend on what the destination's backing array held
+beyond `len` (a reused scratch buffer), nor on the runtime's growth policy, and a result the caller
+keeps is not affected by the calls that follow. -/
+
+private theorem goAppend_data (g : Nat → Nat) (s : Slice) (bs : Bytes) :
+    (goAppend g s bs).data = s.data ++ bs := by
+  unfold goAppend; split <;> rfl
+
+private theorem appendEach_data (g : Nat → Nat) (s : Slice) (cs : Bytes) :
+    (appendEach g s cs).data = s.data ++ cs := by
+  induction cs generalizing s with
+  | nil => simp [appendEach]
+  | cons c cs ih => simp [appendEach, ih, goAppend_data]
+
+/-- **`Append(b, x)` is `b ++ enc(x)` whatever lies between `len(b)` and `cap(b)`** and however the
+runtime grows slices: the visible result is a function of `b`'s visible bytes and `x` only. -/
+theorem append_ignores_capacity (g : Nat → Nat) (s : Slice) (x : Nat) :
+    viewOf (sAppend g s x) = prefixed s.data (vAppend x) := by
+  unfold sAppend
+  cases vAppend x with
+  | ok bs => simp [viewOf, prefixed, goAppend_data]
+  | panic => rfl
+
+/-- **`AppendWithLen(b, x, w)` is `b ++ enc_w(x)` whatever lies between `len(b)` and `cap(b)`**: the
+padding bytes of a non-minimal width are written, never taken from the backing array. -/
+theorem withLen_ignores_capacity (g : Nat → Nat) (s : Slice) (x w : Nat) :
+    viewOf (sAppendWithLen g s x w) = prefixed s.data (vAppendWithLen x w) := by
+  unfold sAppendWithLen vAppendWithLen
+  split; · rfl
+  cases vLen x with
+  | panic => rfl
+  | ok l =>
+    simp only
+    split; · exact append_ignores_capacity g s x
+    split; · rfl
+    simp only [viewOf, prefixed, appendEach_data]
+    congr 1
+    by_cases h2 : w = 2
+    · simp [h2, goAppend_data]
+    · by_cases h4 : w = 4
+      · simp [h4, goAppend_data]
+      · by_cases h8 : w = 8
+        · simp [h8, goAppend_data]
+        · simp [h2, h4, h8]
+
+/-- the padded encoding in a dirty scratch buffer: exactly `w` fresh bytes after `b`, decoding to `x`
+(`withLen_width` transported to an arbitrary destination slice). -/
+theorem withLen_any_destination (g : Nat → Nat) (s : Slice) (x w l : Nat) (r : Bytes)
+    (hw : w = 1 ∨ w = 2 ∨ w = 4 ∨ w = 8) (hl : vLen x = .ok l) (hle : l ≤ w) :
+    ∃ t bs, sAppendWithLen g s x w = .ok t ∧ t.data = s.data ++ bs ∧ bs.length = w ∧
+      vRead (bs ++ r) = some (x, r) := by
+  obtain ⟨bs, hbs, hlen, hrd⟩ := withLen_width x w l r hw hl hle
+  have h := withLen_ignores_capacity g s x w
+  rw [hbs] at h
+  cases ht : sAppendWithLen g s x w with
+  | panic => rw [ht] at h; simp [viewOf, prefixed] at h
+  | ok t =>
+    rw [ht] at h
+    simp only [viewOf, prefixed, Res.ok.injEq] at h
+    exact ⟨t, bs, rfl, h, hlen, hrd⟩
+
+/-- `Marshal` built by appending into any destination (the nil slice in the code) yields the
+destination's bytes followed by the pure `marshalTPs` — nothing of the memory it was built in shows. -/
+theorem marshal_ignores_capacity (g : Nat → Nat) (s : Slice) (tps : List RawTP) :
+    viewOf (sMarshal g s tps) = prefixed s.data (marshalTPs tps) := by
+  induction tps generalizing s with
+  | nil => simp [sMarshal, marshalTPs, viewOf, prefixed]
+  | cons tp rest ih =>
+    unfold sMarshal marshalTPs sAppend
+    cases hi : vAppend tp.id with
+    | panic => simp [viewOf, prefixed]
+    | ok ib =>
+      cases hl : vAppend tp.value.length with
+      | panic => simp [viewOf, prefixed]
+      | ok lb =>
+        simp only
+        rw [ih]
+        cases hr : marshalTPs rest with
+        | panic => simp [prefixed]
+        | ok rb => simp [prefixed, goAppend_data]
+
+/-- **A held result is independent of later calls**: for every sequence of parameter lists marshalled
+one after the other, each result — looked at after all of them were produced — parses back to its
+own list. (`Marshal` returns a value; a change that makes results share storage breaks the tie to
+this statement, which the `tps_seq` monitor evaluates on the real slices.) -/
+theorem tps_seq_roundtrip (ls : List (List RawTP)) (rs : List Bytes) (h : marshalSeq ls = .ok rs) :
+    rs.map parseTPs = ls.map some := by
+  induction ls generalizing rs with
+  | nil => simp [marshalSeq] at h; subst h; rfl
+  | cons l ls ih =>
+    unfold marshalSeq at h
+    cases hm : marshalTPs l with
+    | panic => simp [hm] at h
+    | ok bs =>
+      cases hr : marshalSeq ls with
+      | panic => simp [hm, hr] at h
+      | ok rest =>
+        simp [hm, hr] at h
+        subst h
+        simp [tps_roundtrip l bs hm, ih rest hr]
+
+/-! ## Memory: results do not share storage -/
+
+/-- proof-side invariant: slice `s` is well-formed in `h` and — unless nil — lives in an array
+allocated after the first `n` ones. -/
+def Own (n : Nat) (h : Heap) : Option Hdr → Prop
+  | none => True
+  | some s => n ≤ s.arr ∧ s.arr < h.length ∧ s.len ≤ (h.getD s.arr []).length
+
+private theorem writeAt_length (a : Bytes) (off : Nat) (bs : Bytes) (h : off + bs.length ≤ a.length) :
+    (writeAt a off bs).length = a.length := by
+  simp [writeAt]; omega
+
+private theorem getD_snoc_lt (h : Heap) (x : Bytes) (i : Nat) (hi : i < h.length) :
+    (h ++ [x]).getD i [] = h.getD i [] := by
+  simp [List.getD_eq_getElem?_getD, List.getElem?_append_left hi]
+
+private theorem getD_snoc_eq (h : Heap) (x : Bytes) : (h ++ [x]).getD h.length [] = x := by
+  simp [List.getD_eq_getElem?_getD]
+
+private theorem getD_set_self (h : Heap) (i : Nat) (x : Bytes) (hi : i < h.length) : (h.set i x).getD i [] = x := by
+  simp [List.getD_eq_getElem?_getD, hi]
+
+private theorem getD_set_other (h : Heap) (i j : Nat) (x : Bytes) (hij : i ≠ j) : (h.set i x).getD j [] = h.getD j [] := by
+  simp [List.getD_eq_getElem?_getD, List.getElem?_set_ne hij]
+
+private theorem take_keep (a bs rest : Bytes) (k : Nat) (hk : k ≤ a.length) :
+    (a.take k ++ bs ++ rest).take (k + bs.length) = a.take k ++ bs := by
+  have hl : (a.take k ++ bs).length = k + bs.length := by
+    simp [List.length_take]; omega
+  exact List.take_left' hl
+
+private theorem hAppend_spec (g : Nat → Nat) (n : Nat) (h : Heap) (s : Option Hdr) (bs : Bytes)
+    (hn : n ≤ h.length) (ho : Own n h s) :
+    h.length ≤ (hAppend g h s bs).1.length ∧ Own n (hAppend g h s bs).1 (hAppend g h s bs).2 ∧
+    (∀ i, i < n → (hAppend g h s bs).1.getD i [] = h.getD i []) ∧
+    hView (hAppend g h s bs).1 (hAppend g h s bs).2 = hView h s ++ bs := by
+  cases s with
+  | none =>
+    unfold hAppend
+    by_cases hb : bs = []
+    · simp [hb, Own, hView]
+    · simp only [hb, if_false]
+      refine ⟨by simp, ⟨hn, by simp, ?_⟩, fun i hi => getD_snoc_lt _ _ _ (by omega), ?_⟩
+      · simp
+      · simp [hView]
+  | some s =>
+    obtain ⟨h1, h2, h3⟩ := ho
+    unfold hAppend
+    simp only [hView]
+    generalize ha : h.getD s.arr [] = a at h3 ⊢
+    by_cases hf : s.len + bs.length ≤ a.length
+    · simp only [hf, if_true]
+      refine ⟨by simp, ⟨h1, by simpa using h2, ?_⟩, fun i hi => ?_, ?_⟩
+      · rw [getD_set_self _ _ _ h2, writeAt_length _ _ _ hf]; exact hf
+      · exact getD_set_other _ _ _ _ (by omega)
+      · rw [getD_set_self _ _ _ h2]; exact take_keep _ _ _ _ h3
+    · simp only [hf, if_false]
+      refine ⟨by simp, ⟨by omega, by simp, ?_⟩, fun i hi => getD_snoc_lt _ _ _ (by omega), ?_⟩
+      · rw [getD_snoc_eq]; simp [List.length_take]; omega
+      · rw [getD_snoc_eq]; exact take_keep _ _ _ _ h3
+
+private theorem hMarshalFrom_spec (g : Nat → Nat) (n : Nat) (tps : List RawTP) :
+    ∀ (h : Heap) (s : Option Hdr) (h' : Heap) (r : Option Hdr), n ≤ h.length → Own n h s →
+      hMarshalFrom g h s tps = .ok (h', r) →
+      h.length ≤ h'.length ∧ Own n h' r ∧ (∀ i, i < n → h'.getD i [] = h.getD i []) ∧
+      ∃ bs, marshalTPs tps = .ok bs ∧ hView h' r = hView h s ++ bs := by
+  induction tps with
+  | nil =>
+    intro h s h' r hn ho he
+    simp only [hMarshalFrom, Res.ok.injEq, Prod.mk.injEq] at he
+    obtain ⟨rfl, rfl⟩ := he
+    exact ⟨Nat.le_refl _, ho, fun _ _ => rfl, [], rfl, by simp⟩
+  | cons tp rest ih =>
+    intro h s h' r hn ho he
+    unfold hMarshalFrom at he
+    cases hi : vAppend tp.id with
+    | panic => simp [hi] at he
+    | ok ib =>
+      cases hl : vAppend tp.value.length with
+      | panic => simp [hi, hl] at he
+      | ok lb =>
+        simp only [hi, hl] at he
+        obtain ⟨l1, o1, f1, v1⟩ := hAppend_spec g n h s ib hn ho
+        obtain ⟨l2, o2, f2, v2⟩ := hAppend_spec g n _ _ lb (by omega) o1
+        obtain ⟨l3, o3, f3, v3⟩ := hAppend_spec g n _ _ tp.value (by omega) o2
+        obtain ⟨l4, o4, f4, bs, hb, v4⟩ := ih _ _ h' r (by omega) o3 he
+        refine ⟨by omega, o4, fun i hi' => ?_, ib ++ lb ++ tp.value ++ bs, ?_, ?_⟩
+        · rw [f4 i hi', f3 i hi', f2 i hi', f1 i hi']
+        · simp [marshalTPs, hi, hl, hb]
+        · rw [v4, v3, v2, v1]; simp
+
+private theorem hView_frame (h1 hN : Heap) (n : Nat) (r : Option Hdr) (ho : Own n h1 r)
+    (hf : ∀ i, i < h1.length → hN.getD i [] = h1.getD i []) : hView hN r = hView h1 r := by
+  cases r with
+  | none => rfl
+  | some s => simp only [hView]; rw [hf s.arr ho.2.1]
+
+/-- one `Marshal()` call writes only into arrays it allocates itself: every array that existed
+before the call is unchanged, and the returned slice shows exactly `marshalTPs`. -/
+theorem marshal_writes_only_fresh_memory (g : Nat → Nat) (h h' : Heap) (tps : List RawTP) (r : Option Hdr)
+    (he : hMarshal g h tps = .ok (h', r)) :
+    (∀ i, i < h.length → h'.getD i [] = h.getD i []) ∧ ∃ bs, marshalTPs tps = .ok bs ∧ hView h' r = bs := by
+  obtain ⟨_, _, f, bs, hb, v⟩ := hMarshalFrom_spec g h.length tps h none h' r (Nat.le_refl _) trivial he
+  exact ⟨f, bs, hb, by simpa [hView] using v⟩
+
+/-- **A result the caller holds is independent of later calls** — with memory modelled: for every
+sequence of parameter lists marshalled one after the other in one heap (any growth policy, any
+prior heap contents), every returned slice, *read in the final heap after all calls*, shows exactly
+the marshalling of its own list; and nothing that existed before is touched. This is what the
+`tps_seq` monitor evaluates on the real slices; a `Marshal` that builds its result in storage a
+later call reuses (a pooled or package-level scratch buffer) is not `hMarshal` — see the example
+at the end of this file — and the monitor sees the overwritten bodies. -/
+theorem marshal_results_survive_later_calls (g : Nat → Nat) (ls : List (List RawTP)) :
+    ∀ (h hN : Heap) (rs : List (Option Hdr)), hMarshalSeq g h ls = .ok (hN, rs) →
+      h.length ≤ hN.length ∧ (∀ i, i < h.length → hN.getD i [] = h.getD i []) ∧
+      ∃ bss, marshalSeq ls = .ok bss ∧ rs.map (hView hN) = bss := by
+  induction ls with
+  | nil =>
+    intro h hN rs he
+    simp only [hMarshalSeq, Res.ok.injEq, Prod.mk.injEq] at he
+    obtain ⟨rfl, rfl⟩ := he
+    exact ⟨Nat.le_refl _, fun _ _ => rfl, [], rfl, rfl⟩
+  | cons l ls ih =>
+    intro h hN rs he
+    unfold hMarshalSeq at he
+    cases hm : hMarshal g h l with
+    | panic => simp [hm] at he
+    | ok p =>
+      obtain ⟨h1, r⟩ := p
+      simp only [hm] at he
+      cases hr : hMarshalSeq g h1 ls with
+      | panic => simp [hr] at he
+      | ok q =>
+        obtain ⟨hN', rs'⟩ := q
+        simp only [hr, Res.ok.injEq, Prod.mk.injEq] at he
+        obtain ⟨rfl, rfl⟩ := he
+        obtain ⟨l1, o1, f1, bs, hb, v1⟩ := hMarshalFrom_spec g h.length l h none h1 r (Nat.le_refl _) trivial hm
+        obtain ⟨l2, f2, bss, hbs, v2⟩ := ih h1 hN' rs' hr
+        refine ⟨by omega, fun i hi => ?_, bs :: bss, ?_, ?_⟩
+        · rw [f2 i (by omega), f1 i hi]
+        · simp [marshalSeq, hb, hbs]
+        · simp only [List.map_cons, v2, hView_frame h1 hN' h.length r o1 f2, v1]
+          simp [hView]
+
 /-! Non-vacuity: concrete non-trivial instances of the hypotheses. -/
 example : vAppend 16384 = .ok [0x80, 0x00, 0x40, 0x00] := by decide
 example : vAppendWithLen 37 4 = .ok [0x80, 0, 0, 37] := by decide
 example : marshalTPs [⟨0x2ab2, []⟩, ⟨1, [0x40, 0x64]⟩] = .ok [0x6a, 0xb2, 0, 1, 2, 0x40, 0x64] := by decide
 example : parseTPs [0x6a, 0xb2, 0, 1, 2, 0x40, 0x64] = some [⟨0x2ab2, []⟩, ⟨1, [0x40, 0x64]⟩] := by decide
+-- a scratch buffer that held a longer encoding and was reset with b = b[:0]: the padding is written
+example : sAppendWithLen (fun _ => 0) ⟨[], [0xc0, 0xff, 0xff, 0xff, 0xff, 0xff, 0xff, 0xff]⟩ 0 4
+    = .ok ⟨[0x80, 0, 0, 0], [0xff, 0xff, 0xff, 0xff]⟩ := by decide
+-- too little spare capacity: the runtime moves to a fresh array
+example : sAppendWithLen (fun n => 2 * n) ⟨[7], [0xff]⟩ 37 2 = .ok ⟨[7, 0x40, 37], List.replicate 6 0⟩ := by decide
+example : marshalSeq [[⟨1, [0x40, 0x64]⟩], [⟨0x2ab2, []⟩]] = .ok [[1, 2, 0x40, 0x64], [0x6a, 0xb2, 0]] := by decide
+-- two Marshal calls in one heap (array 0 is the one the first call outgrew): both results intact at the end
+example : hMarshalSeq (fun n => n) [] [[⟨1, [0x40, 0x64]⟩], [⟨0x2ab2, []⟩]]
+    = .ok ([[1, 2], [1, 2, 0x40, 0x64, 0, 0, 0, 0], [0x6a, 0xb2, 0, 0]], [some ⟨1, 4⟩, some ⟨2, 3⟩]) := by decide
+-- what the theorem excludes: building the second result in the array the first one lives in
+-- (a scratch buffer handed out again) overwrites the body the caller still holds
+example : hMarshalFrom (fun n => n) [[1, 2, 0x40, 0x64, 0, 0, 0, 0]] (some ⟨0, 0⟩) [⟨0x2ab2, []⟩]
+    = .ok ([[0x6a, 0xb2, 0, 0x64, 0, 0, 0, 0]], some ⟨0, 3⟩) := by decide
 
 end C24
